@@ -29,6 +29,7 @@ EXPLANATION = (
 BANNED = {"as_completed": "yields results in completion order", "wait": "returns unordered done/pending sets",
           "Queue": "hands items over in completion order", "PriorityQueue": "hands items over in completion order",
           "LifoQueue": "hands items over in completion order"}
+CFV_ = "ahbicht.models.condition_nodes.ConditionFulfilledValue"
 EXPRS = ["[1] U ([2] O [3])", "([2] O [3]) U [1]", "[3][901] X [1][902] U [2]", "[2] U [501] O [3] U [502] O [1]"]
 
 
@@ -161,6 +162,55 @@ def check(ctx: Ctx) -> None:
                 ctx.ob("C12.align", f"{keys}:{order}:async={list(async_keys)}", ok,
                        f"evaluating keys {keys} ({order} schedule, async evaluators for {list(async_keys)}): {detail}; every key must be paired with its own value",
                        file="src/ahbicht/content_evaluation/rc_evaluators.py", function="evaluate_conditions / evaluate_format_constraints / get_hints")
+    # ---- C12.cer: the shipped ContentEvaluationResult-based evaluators look a key up in the data of *this* call
+    from ..fdvalues import Opaque
+
+    NODES = "ahbicht.models.condition_nodes"
+    cer_cases = [
+        ("ahbicht.content_evaluation.rc_evaluators.ContentEvaluationResultBasedRcEvaluator", "evaluate_single_condition", "requirement_constraints", True),
+        ("ahbicht.content_evaluation.fc_evaluators.ContentEvaluationResultBasedFcEvaluator", "_evaluate_single_format_constraint", "format_constraints", False),
+        ("ahbicht.expressions.hints_provider.ContentEvaluationResultBasedHintsProvider", "_get_hint_text", "hints", False),
+        ("ahbicht.expressions.package_expansion.ContentEvaluationResultBasedPackageResolver", "_get_condition_expression", "packages", False),
+    ]
+    for cname, meth, table, data_positional in cer_cases:
+        cls_ = model.cls(cname)
+        fn_ = model.find_method(cls_, meth)
+        if fn_ is None:
+            ctx.note(f"{cname}.{meth} not found - C12.cer skipped for it")
+            continue
+        for key, present in (("2", True), ("1", True), ("7", False)):
+            def run(ch, cname=cname, meth=meth, table=table, key=key):
+                it = Interp(model, ch)
+                it.ext_handlers["opaque-call"] = lambda _it, func, args, kwargs: args[0] if func.label.endswith(".load") else None
+                tables = {
+                    "requirement_constraints": {"1": it.enum(CFV_, "FULFILLED"), "2": it.enum(CFV_, "UNFULFILLED")},
+                    "format_constraints": {"1": Obj(f"{NODES}.EvaluatedFormatConstraint", {"format_constraint_fulfilled": True, "error_message": None}),
+                                           "2": Obj(f"{NODES}.EvaluatedFormatConstraint", {"format_constraint_fulfilled": False, "error_message": "m2"})},
+                    "hints": {"1": "hint one", "2": "hint two"},
+                    "packages": {"1": "[1] U [2]", "2": "[3]"},
+                }
+                cer = Obj("ahbicht.models.content_evaluation_result.ContentEvaluationResult", {**tables, "id": None})
+                data = Obj("ahbicht.content_evaluation.evaluationdatatypes.EvaluatableData", {"body": cer, "edifact_format": Opaque("fmt", truthy=True), "edifact_format_version": Opaque("fv", truthy=True)})
+                self_obj = Obj(cname, {"_schema": Opaque("schema", truthy=True), "logger": Opaque("logger", kind="logging.Logger", truthy=True), "edifact_format": Opaque("fmt", truthy=True)})
+                try:
+                    res = it.call(it.getattr(self_obj, meth, None, None), [key], {"evaluatable_data": data}, None, None)
+                    res = it.await_(res, None, None)
+                except PyRaise as err:
+                    return ("raise", err.exc.cls)
+                want = tables[table].get(key)
+                if isinstance(res, Obj) and res.cls.endswith("PackageKeyConditionExpressionMapping"):
+                    return ("ret", res.fields.get("package_expression") == want and res.fields.get("package_key") == key)
+                return ("ret", res is want or (isinstance(want, str) and res == want) or (want is None and res is None) or it.eq(res, want))
+
+            outs = sorted({o for _, o in explore(run)}, key=repr)
+            ctx.count()
+            if present or table in ("hints", "packages"):
+                ok = outs == [("ret", True)]
+            else:
+                ok = outs == [("raise", "builtins.NotImplementedError")]
+            ctx.ob("C12.cer", f"{cname.rsplit('.', 1)[-1]}:{key}", ok,
+                   f"{cname.rsplit('.', 1)[-1]}.{meth}({key!r}) with this call's content evaluation result gives {outs}; it must return that result's own entry for the key"
+                   f"{'' if present else ' (absent key: NotImplementedError for constraints, None for hints/packages)'}", file=cls_.file, line=fn_.node.lineno, function=fn_.qualname)
     # ---- C12.evaluators: any mix of sync/async per-key methods, both schedules
     base = {}
     results = mixed_evaluator_results(model)
